@@ -1,6 +1,8 @@
 """C14 - terminal access is serialized across threads and processes."""
 from __future__ import annotations
 
+import re
+
 from simkit import procs
 from simkit.core import Violation, check
 from simkit.vterm import Profile
@@ -21,7 +23,10 @@ LEVEL_TEXT = ("Seeded (program, start method, schedule) worlds: 1-4 threads per 
               "at every seam call - and on half of the runs at every source line of term_image - "
               "who runs next. Checked: no two synchronized bodies ever overlap, every query "
               "returns exactly its own reply, nothing is left in the tty input queue, nested "
-              "calls never block on themselves and every task finishes. Sampling of schedules, "
+              "calls never block on themselves and every task finishes. A fifth of the worlds let "
+              "the terminal answer some queries only after the caller's timeout: there a reply "
+              "that was already waiting in the input queue when a later query_terminal call "
+              "started must never be part of what that call returns. Sampling of schedules, "
               "not proof.")
 LEVEL_NOTE = ("Trusted: the kernel's lock models (threading.RLock and multiprocessing.RLock "
               "semantics: re-entrant per (process, thread), shared across processes by "
@@ -41,7 +46,8 @@ RULE = ("world = seeded program tree (<= 3 processes x <= 4 tasks x <= 8 steps) 
 PROBES = ["waiter_parked_on_thread_lock_during_swap", "two_first_starts_racing",
           "child_acquires_while_parent_thread_holds", "grandchild_started",
           "nested_reentrant_call", "line_level_preemption", "contended_acquire",
-          "query_while_other_task_waits", "fork", "spawn", "screen_redraw_step"]
+          "query_while_other_task_waits", "fork", "spawn", "screen_redraw_step",
+          "reply_later_than_timeout", "stale_reply_waiting_in_queue", "foreign_reply_seen_by_query"]
 COMPONENTS = {
     "real": ["term_image.utils.lock_tty / query_terminal / read_tty / write_tty / get_cell_size",
              "_process_start_wrapper / _process_run_wrapper and the import-time Process patching "
@@ -97,7 +103,11 @@ def gen_program(ch, depth, budget, mode="getters"):
     steps = []
     for _ in range(ch.int("n_steps", 1, 6)):
         kinds = [(4, "probe"), (4, "query"), (1, "write"), (2, "read"), (1, "cell")]
-        if mode == "getters":
+        if mode == "late":
+            # replies later than the timeout: plain reads and getters would legitimately pick
+            # up stray bytes, so only attributable queries run in these worlds
+            kinds = [(3, "probe"), (4, "query"), (2, "late_query"), (1, "write")]
+        elif mode == "getters":
             kinds += [(2, "colors"), (1, "namever")]
         elif depth == 0:
             kinds.append((3, "screen"))
@@ -145,7 +155,7 @@ def run(ch, ctx, fault=None):
     tty.delay_fn = (lambda kind: ch.int("delay", 0, dmax)) if dmax else (lambda kind: 0)
     budget = [ch.int("procs", 0, 2)]
     n_root = ch.int("root_threads", 1, 4)
-    mode = ch.pick("mode", ("getters", "screen"))
+    mode = ch.pick("mode", ("getters", "getters", "screen", "screen", "late"))
     programs = [gen_program(ch, 0, budget, mode) for _ in range(n_root)]
     if k.policy == "pct":
         k.pct_points = tuple(sorted(ch.int("pctp", 1, 400) for _ in range(ch.int("pctd", 1, 3))))
@@ -161,6 +171,12 @@ def run(ch, ctx, fault=None):
     results = []
     started_children = [0]
     first_start_window = {"active": 0}
+    # "late" worlds: global order of reply arrivals and query starts
+    tick = [0]
+    arrived = {}          # DECRQM number -> tick at which its reply entered the tty input queue
+    late_numbers = set()
+    cur_late = [False]
+    decrqm_re = re.compile(rb"\x1b\[\?(\d+);0\$y")
 
     with w:
         pw = procs.ProcWorld(w)
@@ -215,6 +231,42 @@ def run(ch, ctx, fault=None):
 
         tty.write_hook = tty_write_hook
 
+        if mode == "late":
+            def reply_filter(kind, data):
+                m = decrqm_re.search(data)
+                if m:
+                    cur_late[0] = int(m.group(1)) in late_numbers
+                return data
+
+            def delay_fn(kind):
+                if cur_late[0]:
+                    return ch.int("late_delay", 30_000_000, 150_000_000)
+                return ch.int("delay", 0, dmax) if dmax else 0
+
+            def input_arrives(data, orig=tty.input_arrives):
+                tick[0] += 1
+                for num in decrqm_re.findall(bytes(data)):
+                    arrived[int(num)] = tick[0]
+                orig(data)
+
+            tty.reply_filter = reply_filter
+            tty.delay_fn = delay_fn
+            tty.input_arrives = input_arrives
+
+        def judge_late(label, n, got, start):
+            """A reply that had already arrived when this call started belongs to an earlier
+            caller (who gave up on it); the terminal lock's owner discards such bytes before it
+            sends its own request, so they can never be part of what it returns."""
+            for num in decrqm_re.findall(got or b""):
+                num = int(num)
+                if num != n:
+                    ctx.probe("foreign_reply_seen_by_query")
+                    check(arrived.get(num, 0) > start,
+                          "reply_of_an_earlier_query_delivered_to_a_later_caller",
+                          {"task": label, "query": n, "foreign_reply": num, "got": got,
+                           "foreign_arrived_at": arrived.get(num), "call_started_at": start},
+                          "late")
+
         def make_probe(utils, name):
             def body(depth):
                 mon.enter(name)
@@ -244,10 +296,31 @@ def run(ch, ctx, fault=None):
                     if any(t.state == "blocked" and t.what.startswith(("lock", "mplock"))
                            for t in k.tasks):
                         ctx.probe("query_while_other_task_waits")
+                    tick[0] += 1
+                    start = tick[0]
                     got = utils.query_terminal(req, lambda s: not s.endswith(b"c"))
                     results.append((label, n, got == want))
-                    check(got == want, "query_did_not_receive_exactly_its_own_reply",
-                          {"task": label, "query": n, "got": got, "expected": want}, "query")
+                    if mode == "late":
+                        judge_late(label, n, got, start)
+                    else:
+                        check(got == want, "query_did_not_receive_exactly_its_own_reply",
+                              {"task": label, "query": n, "got": got, "expected": want}, "query")
+                elif kind == "late_query":
+                    # the terminal answers this one only after the caller has given up; the
+                    # caller then idles until the stale reply sits in the input queue
+                    qn[0] += 1
+                    n = qn[0]
+                    late_numbers.add(n)
+                    req = b"\x1b[?%d$p\x1b[c" % n
+                    tick[0] += 1
+                    start = tick[0]
+                    got = utils.query_terminal(req, lambda s: not s.endswith(b"c"), 0.002)
+                    results.append((label, n, None))
+                    judge_late(label, n, got, start)
+                    ctx.probe("reply_later_than_timeout")
+                    k.block_until(lambda n=n: n in arrived, k.now + 400_000_000, "late-reply")
+                    if n in arrived:
+                        ctx.probe("stale_reply_waiting_in_queue")
                 elif kind == "write":
                     utils.write_tty(b"\x1b[0m")
                 elif kind == "read":
@@ -313,6 +386,8 @@ def run(ch, ctx, fault=None):
         finally:
             k.tracefunc = None
             tty.write_hook = None
+            tty.reply_filter = None
+            tty.__dict__.pop("input_arrives", None)
             out._deliver = orig_deliver
             try:
                 # urwid installs process-wide signal handlers at start(); each screen remembers
@@ -329,6 +404,8 @@ def run(ch, ctx, fault=None):
         # deliver whatever is in flight, then the input queue must be empty
         if tty.last_reply_at > k.now:
             k.advance(tty.last_reply_at - k.now)
+        if mode == "late":
+            tty.inq.clear()      # stray late replies are expected here
         check(not tty.inq, "reply_bytes_left_in_tty_queue", {"left": bytes(tty.inq)}, "end")
         if k.contended:
             ctx.probe("contended_acquire")
